@@ -14,6 +14,7 @@ Inductive pexpr :=
 | PValueStr                              (* value_str *)
 | PInner (e : pexpr)                     (* e[1:-1] *)
 | PNormalize (e : pexpr)                 (* self._normalize_newlines(e) *)
+| PUncontinue (e : pexpr)                (* _line_continuation_re.sub(r"\1", e) *)
 | PProtect (e : pexpr)                   (* _backslash_non_ascii_re.sub(r"\1\\\\", e) *)
 | PEncode (e : pexpr) (codec errors : N) (* e.encode(codec, errors): 0 = "ascii" / "backslashreplace" *)
 | PDecode (e : pexpr) (codec : N)        (* e.decode(codec): 0 = "unicode-escape" *)
@@ -47,6 +48,7 @@ Section Interp.
     | PValueStr => VText tok
     | PInner a => match eval a tok with VText s => VText (removelast (tl s)) | VRaise x => VRaise x | _ => VRaise XUnmodelled end
     | PNormalize a => match eval a tok with VText s => VText (normalize nl s) | VRaise x => VRaise x | _ => VRaise XUnmodelled end
+    | PUncontinue a => match eval a tok with VText s => VText (uncontinue s) | VRaise x => VRaise x | _ => VRaise XUnmodelled end
     | PProtect a => match eval a tok with VText s => VText (protect s) | VRaise x => VRaise x | _ => VRaise XUnmodelled end
     | PEncode a codec errors =>
         match eval a tok with
@@ -82,6 +84,8 @@ Section Interp.
   (* the model's conversions in the same vocabulary *)
   Definition model_string (tok : str) : branch_result :=
     match convert nl (removelast (tl tok)) with inl v => BText v | inr _ => BSyntaxError end.
+  (* Lexer.tokeniter hands wrap a token whose line breaks are all LF: normalize [10] is the identity on it *)
+  Definition lf_only (tok : str) : Prop := normalize [10] (removelast (tl tok)) = removelast (tl tok).
   Definition model_int (tok : str) : branch_result :=
     match jinja_int limit tok with Ok z => BInt z | SyntaxErr => BSyntaxError end.
   Definition model_float (tok : str) : branch_result := BFloat (jinja_float F dec2float tok).
